@@ -14,7 +14,7 @@
    stored is resent on a reconnection with the session — PUBLISH with the same identifier and DUP, PUBREL once
    PUBREC was received — and nothing else is (C09_resend), an acknowledged message is no longer stored. *)
 From MV Require Import Base.Val Session.Pkt Session.Inflight Session.InflightProofs Session.QosSpecs
-  Session.QosProofs Session.QosWitness.
+  Session.QosProofs Session.QosOrder Session.QosLive Session.QosSound Session.QosWitness.
 Open Scope N_scope.
 
 (* A stored record without the held-back mark (an outbound PUBLISH / PUBREL, or the PUBREC of an own exchange)
@@ -52,6 +52,11 @@ Theorem C09_pubrel_after_pubrec : forall c s k rc now orc r,
   exists r', get k (s_infl (fst (in_ack c s T_PUBREC k rc now orc))) = Some r' /\ r_ty r' = T_PUBREL.
 Proof. exact pubrec_turns_into_pubrel. Qed.
 
+(* the step check of the monitor says what the specification says (client-side bookkeeping = QosSpecs.view_step) *)
+Theorem C09_monitor_sound : forall c v o ob,
+  chk09 c v o ob (view_step c v o ob) = None -> Spec09_step c v o ob.
+Proof. exact chk09_sound. Qed.
+
 Theorem C09_refuted_deferred : exists c h, model_verdict 9 c h = Some (1, Some (tag "KF_C09_deferred")).
 Proof. exists (wcfg 2 8), [w_connect; w_out 1 1; w_out 1 2; w_ack T_PUBACK 1]. vm_compute. reflexivity. Qed.
 
@@ -74,5 +79,6 @@ Print Assumptions C09_resend.
 Print Assumptions C09_puback_removes.
 Print Assumptions C09_pubcomp_removes.
 Print Assumptions C09_pubrel_after_pubrec.
+Print Assumptions C09_monitor_sound.
 Print Assumptions C09_refuted_deferred.
 Print Assumptions C09_refuted_collision.
